@@ -43,17 +43,25 @@ def showRes : Res → String
 def showSecs (l : List LocSection) : String :=
   joinList (l.map fun s => (match s.id with | some i => encStr i | none => "~") ++ ">" ++ encStr s.extra)
 
-/-- `lm loc name secs` / `sp loc name secs`: Stack.get through LocationMatcher / StartingPathMatcher;
-`ms loc secs` / `ss loc secs`: the sections they yield (id>extra_path);
+/-- `excl` = the code as it is (the ignoring section itself is not consulted),
+`incl` = the documented cut (selected by the harness only if the code behaves so) -/
+def cutVariant (s : String) : Option Bool :=
+  if s == "excl" then some false else if s == "incl" then some true else none
+
+def locSecs (incl : Bool) (nn : Option (List (Str × Str))) (ps : List PSec) (loc : Str) : List LocSection :=
+  if incl then cutAfterIgnoring (sortedSections nn ps loc) else locationSections nn ps loc
+
+/-- `lm variant loc name secs` / `sp loc name secs`: Stack.get through LocationMatcher / StartingPathMatcher;
+`ms variant loc secs` / `ss loc secs`: the sections they yield (id>extra_path);
 `it loc names`: `_iter_for_location_by_parts`; `uq v`: unquote; `bn v`: basename; `jn a b`: join -/
 def handle : List String → String
-  | ["lm", loc, name, secs] =>
-    match decStr loc, decStr name, decSections secs with
-    | some loc, some name, some rs =>
+  | ["lm", v, loc, name, secs] =>
+    match cutVariant v, decStr loc, decStr name, decSections secs with
+    | some v, some loc, some name, some rs =>
       match splitStore rs with
-      | some (nn, ps) => showRes (stackGet (locationSections nn ps loc) name)
+      | some (nn, ps) => showRes (stackGet (locSecs v nn ps loc) name)
       | none => "G"
-    | _, _, _ => "bad-op"
+    | _, _, _, _ => "bad-op"
   | ["sp", loc, name, secs] =>
     match decStr loc, decStr name, decSections secs with
     | some loc, some name, some rs =>
@@ -61,13 +69,13 @@ def handle : List String → String
       | some (nn, ps) => showRes (stackGet (startingSections nn ps loc) name)
       | none => "G"
     | _, _, _ => "bad-op"
-  | ["ms", loc, secs] =>
-    match decStr loc, decSections secs with
-    | some loc, some rs =>
+  | ["ms", v, loc, secs] =>
+    match cutVariant v, decStr loc, decSections secs with
+    | some v, some loc, some rs =>
       match splitStore rs with
-      | some (nn, ps) => showSecs (locationSections nn ps loc)
+      | some (nn, ps) => showSecs (locSecs v nn ps loc)
       | none => "G"
-    | _, _ => "bad-op"
+    | _, _, _ => "bad-op"
   | ["ss", loc, secs] =>
     match decStr loc, decSections secs with
     | some loc, some rs =>
